@@ -1,53 +1,5 @@
--- GENERATED by tools/translate.py from the Rust sources under $VERIF_REPO/src — do not edit
-set_option linter.unusedVariables false
-namespace Gen
-
-def maxFdsInCmsg : Nat := 64
-def reservedSize : Nat := 32
-
-def fragmentSize (sendbuf_size : Nat) : Nat := (sendbuf_size - reservedSize)
-def fragmentSize_safe (sendbuf_size : Nat) : Prop := (reservedSize ≤ sendbuf_size)
-def cmsgAlign (length : Nat) : Nat := (((length + 8) - 1) &&& (2^64 - 1 - (8 - 1)))
-def cmsgAlign_safe (length : Nat) : Prop := (1 ≤ (length + 8)) ∧ (1 ≤ 8)
-def cmsgLen (length : Nat) : Nat := ((cmsgAlign 16) + length)
-def cmsgLen_safe (length : Nat) : Prop := True
-def cmsgSpace (length : Nat) : Nat := ((cmsgAlign length) + (cmsgAlign 16))
-def cmsgSpace_safe (length : Nat) : Prop := True
-def firstFragmentSize (sendbuf_size : Nat) : Nat := (((fragmentSize sendbuf_size) - 8) &&& ((2^64 - 1 - 8) + 1))
-def firstFragmentSize_safe (sendbuf_size : Nat) : Prop := (8 ≤ (fragmentSize sendbuf_size))
-
-def downsize (sendbuf_size sent_size : Nat) : Option Nat :=
-  if sent_size > 2000 then
-    let sendbuf_size := sendbuf_size / 2
-    some (if sendbuf_size ≥ sent_size then sent_size / 2 else sendbuf_size)
-  else none
-
-/-- `send`: the message is first attempted as a single packet -/
-def singleTest (sys len : Nat) : Bool := decide (len ≤ firstFragmentSize sys)
-def endFirst (sb : Nat) : Nat := (firstFragmentSize sb)
-def endFollow (len pos sb : Nat) : Nat := (min (pos + (fragmentSize sb)) len)
-def sentSize (pos endp : Nat) : Nat := (endp - pos)
-def vKeepOwnRef : Bool := false  -- false: `dedicated_rx = None` right after the first fragment went out
-def shape_fdOrder : Bool := true  -- channels, regions, dedicated socket (last)
-/-- `send` refuses the message before transmitting anything -/
-def refuseAll (nfds : Nat) : Bool := decide (maxFdsInCmsg < nfds + 0)
-/-- `send` refuses to start a fragmented transfer (checked right before the dedicated socket pair is created) -/
-def refuseFrag (nfds : Nat) : Bool := decide (maxFdsInCmsg < nfds + 1)
-
-def recvFirstBuf (sys : Nat) : Nat := (firstFragmentSize sys)
-def recvFirstLen (n : Nat) : Nat := (n - 8)
-def recvFirstLen_safe (n : Nat) : Prop := (8 ≤ n)
-def channelLength (cmsg_len : Nat) : Nat := ((cmsg_len - (cmsgAlign 16)) / 4)
-def channelLength_safe (cmsg_len : Nat) : Prop := ((cmsgAlign 16) ≤ cmsg_len)
-def shape_recvPopsLast : Bool := true
-def recvEnd (sys wp total : Nat) : Nat := (min (wp + (fragmentSize sys)) total)
-/-- buffer length set after a follow-up `recv` that returned `r` > 0 bytes at `wp` (requested up to `ep`) -/
-def recvSetLenAfter (wp r ep : Nat) : Nat := wp + r
-def shape_recvSetLenBeforeRead : Bool := true  -- set_len(end_pos) guarded by the capacity assert
-def shape_recvFreshVectors : Bool := true  -- vectors and control buffer created per call, filled once
-def shape_recvDiscardRestarts : Bool := true  -- truncated: drop everything collected, then receive afresh
-def shape_followupsBlocking : Bool := true  -- a message once begun is assembled to the end (or found truncated)
-def shape_followupRetriesEintr : Bool := true  -- false: `Less => return Err(UnixError::last())` whatever the errno
-def recvTruncatedIsClosed : Bool := false
-
-end Gen
+/- translator: unit Gen could not be translated from the current source:
+recv: fast-path test not found
+-/
+-- deliberately failing, so that only the properties that depend on this unit lose their proof obligations
+example : False := by trivial
